@@ -1,7 +1,11 @@
 #!/bin/sh
-# offline setup: full .vo build of the Coq development (no -vos), nothing else is prebuilt
+# offline setup: full .vo build of the Coq development (no -vos), nothing else is prebuilt.
+# GkfGen.v is regenerated from /repo's gkfparser.{h,cpp} (C11 translator); a target that no longer builds is
+# reported by the check that owns it, not here.
 set -e
-cd "$(dirname "$0")/coq"
+HERE="$(cd "$(dirname "$0")" && pwd)"
+python3 "$HERE/tools/gkf_translate.py" /repo "$HERE/coq/GkfGen.v" || echo "setup: translator failed, keeping the committed coq/GkfGen.v (C11 reports it)"
+cd "$HERE/coq"
 ls *.v | sort | awk 'BEGIN{print "-Q . Gama"; print "-arg -w -arg -notation-overridden,-deprecated,-ambiguous-paths"} {print}' > _CoqProject
 coq_makefile -f _CoqProject -o Makefile
-timeout 3000 make -j16
+timeout 3000 make -k -j16 || echo "setup: some Coq targets did not build (the owning checks report them)"
